@@ -170,15 +170,40 @@ def oracle(case):
     return None
 
 
+def snapshot_case(seed, i, engine):
+    """an iterator over many keys (several scan batches of the tikv client) with a write batch landing after its
+    first elements: the iteration must come from ONE snapshot (the one taken when the iterator was created)"""
+    r = rng_for(seed, "c11snap/%d" % i)
+    n = r.choice([300, 700])
+    pfx = b"k/"
+    lines = ["cfg engine=%s" % engine, "load %d %s %s" % (n, hx(pfx), hx(b"v"))]
+    for _ in range(3):
+        far = [pfx + (b"%04d" % r.randint(n // 2, n - 1)) for _ in range(3)]
+        ops = ["put:%s:%s" % (hx(far[0]), hx(b"changed")), "del:%s" % hx(far[1]), "put:%s:%s" % (hx(pfx + b"9999x"), hx(b"new"))]
+        if r.random() < 0.5:
+            lines.append("iterw %s %s %d %s" % (hx(pfx), hx(b"k0"), r.randint(0, 3), " ".join(ops)))
+        else:
+            lines.append("iterw %s %s %d %s" % (hx(b"k0"), hx(pfx), r.randint(0, 3), " ".join(ops)))
+        lines.append("iter %s %s 0" % (hx(far[0]), hx(far[0] + b"0")))
+    lines.append("dump")
+    return core.Case("engine", lines, {"engine": engine, "snapshot": True})
+
+
 def check(rep, tier, seed):
     n, n_ops = (60, 80) if tier == "quick" else (1200, 200)
     cases = [gen_case(seed, i, ENGINES[i % len(ENGINES)], n_ops) for i in range(n)]
+    cases += [snapshot_case(seed, i, ENGINES[i % 3]) for i in range(3 if tier == "quick" else 30)]
     core.run_cases(cases)
     for c in cases:
         rep.count_case(c)
-        hit = oracle(c)
+        hit = None if c.meta.get("snapshot") else oracle(c)
+        if c.meta.get("snapshot") and c.diff() is not None:
+            d = c.diff()
+            if c.lines[d].startswith("iterw"):
+                hit = ("line %d: an iterator that was open while a batch committed did not read from one snapshot: %s "
+                       "(snapshot at creation: %s)" % (d + 1, c.impl[d], c.model[d]), "iterator-not-one-snapshot")
         if hit:
-            if core.handle_oracle_hit(rep, "C11", hit[1], c, hit[0], hit[1], shrink_fn=lambda x: oracle(x) is not None):
+            if core.handle_oracle_hit(rep, "C11", hit[1], c, hit[0], hit[1], shrink_fn=(None if c.meta.get("snapshot") else (lambda x: oracle(x) is not None))):
                 return
             continue
         if c.diff() is not None:
